@@ -298,9 +298,28 @@ pub struct ThreadPool {
 
 type Job<'scope> = Box<dyn FnOnce(&ScopeFifo<'scope>) + Send + 'scope>;
 
+thread_local! {
+    /// task id -> index (submission order) of the pool job it is running (all tasks are coroutines
+    /// on one OS thread, so this is per execution, keyed by task)
+    static JOB_BY_TASK: std::cell::RefCell<std::collections::HashMap<usize, usize>> = std::cell::RefCell::new(std::collections::HashMap::new());
+}
+
+fn task_id() -> Option<usize> {
+    shuttle::current::get_current_task().map(|t| t.into())
+}
+
+/// Index, in submission order within its scope, of the `spawn_fifo` job the calling task is
+/// running (None outside a pool job). Lets a harness tell the jobs apart without relying on
+/// anything the job itself computes.
+pub fn current_job_index() -> Option<usize> {
+    let t = task_id()?;
+    JOB_BY_TASK.with(|m| m.borrow().get(&t).copied())
+}
+
 struct PoolShared {
     /// pending jobs in submission order (lifetime erased; the scope joins every worker before it returns)
-    queue: VecDeque<Job<'static>>,
+    queue: VecDeque<(usize, Job<'static>)>,
+    next_job: usize,
     /// worker tasks currently alive (excluding the thread that runs the scope body)
     live_workers: usize,
     max_workers: usize,
@@ -328,7 +347,9 @@ impl<'scope> ScopeFifo<'scope> {
         let job: Job<'static> = unsafe { std::mem::transmute(job) };
         let start_worker = {
             let mut s = self.shared.lock().unwrap();
-            s.queue.push_back(job);
+            let idx = s.next_job;
+            s.next_job += 1;
+            s.queue.push_back((idx, job));
             if s.live_workers < s.max_workers {
                 s.live_workers += 1;
                 true
@@ -344,12 +365,20 @@ impl<'scope> ScopeFifo<'scope> {
     }
 }
 
-fn run_job(shared: &SharedRef, job: Job<'static>) {
+fn run_job(shared: &SharedRef, job: (usize, Job<'static>)) {
+    let (idx, job) = job;
+    let me = task_id();
+    if let Some(t) = me {
+        JOB_BY_TASK.with(|m| m.borrow_mut().insert(t, idx));
+    }
     let scope: ScopeFifo<'static> = ScopeFifo {
         shared: shared.clone(),
         _marker: PhantomData,
     };
     let r = std::panic::catch_unwind(std::panic::AssertUnwindSafe(|| job(&scope)));
+    if let Some(t) = me {
+        JOB_BY_TASK.with(|m| m.borrow_mut().remove(&t));
+    }
     if let Err(p) = r {
         let mut s = shared.lock().unwrap();
         if s.panic.is_none() {
@@ -387,6 +416,7 @@ impl ThreadPool {
     {
         let shared: SharedRef = std::sync::Arc::new(std::sync::Mutex::new(PoolShared {
             queue: VecDeque::new(),
+            next_job: 0,
             live_workers: 0,
             max_workers: self.num_threads.saturating_sub(1),
             handles: Vec::new(),
